@@ -83,7 +83,10 @@ def gen_history(rng, tier):
             ops.append('commit %d %d %s %d %s' % (c, rng.choice(epochs_seen), rng.choice('mmin'), rng.random() < 0.5,
                                                  rng.choice(['0-100', '8192-16383', '4096-8191', '-', '12288-16383', '0-4095,8192-12287'])))
         elif x < 0.955:
-            ops.append('recover %d' % rng.choice([0, 5, 50, 500]))
+            if rng.random() < 0.5:
+                ops.append('recover %d' % rng.choice([0, 5, 50, 500]))
+            else:
+                ops.append('svcrecover %d' % rng.choice([0, 7, 40, 41, 400]))
         elif x < 0.97:
             ops.append('forcebump %d' % rng.choice([3, 30, 300, 3000]))
         elif x < 0.985:
